@@ -368,6 +368,9 @@ def run_step(env, st):
             kw['new_axes'] = st['new_axes']
         if st.get('qconj') is not None:
             kw['qconj'] = st['qconj']
+        if st.get('pipes') is not None:
+            # pipes made by the caller (documented option `pipes`): unsorted / unbunched pipes reach the worker only this way
+            kw['pipes'] = [a.make_pipe(g, qconj=o['qconj'], sort=o['sort'], bunch=o['bunch']) for g, o in zip(st['groups'], st['pipes'])]
         return a.combine_legs(st['groups'], **kw)
     if op == 'w_combine':
         return direct_combine(a, st['groups'])
